@@ -193,20 +193,25 @@ leaf!(c32_mix_columns_0, mix_columns_0, spec_mix_columns_0, cadical);
 // @ob name=c32_mix_columns_1 props=C02,C03,C20 fn=aes::soft::fixslice32::mix_columns_1 timeout=600
 leaf!(c32_mix_columns_1, mix_columns_1, spec_mix_columns_1, cadical);
 // @ob name=c32_mix_columns_2 props=C02,C03,C20 fn=aes::soft::fixslice32::mix_columns_2 timeout=600
+#[cfg(not(aes_compact))]
 leaf!(c32_mix_columns_2, mix_columns_2, spec_mix_columns_2, cadical);
 // @ob name=c32_mix_columns_3 props=C02,C03,C20 fn=aes::soft::fixslice32::mix_columns_3 timeout=600
+#[cfg(not(aes_compact))]
 leaf!(c32_mix_columns_3, mix_columns_3, spec_mix_columns_3, cadical);
 // @ob name=c32_inv_mix_columns_0 props=C02,C03,C17,C20 fn=aes::soft::fixslice32::inv_mix_columns_0 timeout=600
 leaf!(c32_inv_mix_columns_0, inv_mix_columns_0, spec_inv_mix_columns_0, cadical);
 // @ob name=c32_inv_mix_columns_1 props=C02,C03,C20 fn=aes::soft::fixslice32::inv_mix_columns_1 timeout=600
 leaf!(c32_inv_mix_columns_1, inv_mix_columns_1, spec_inv_mix_columns_1, cadical);
 // @ob name=c32_inv_mix_columns_2 props=C02,C03,C20 fn=aes::soft::fixslice32::inv_mix_columns_2 timeout=600
+#[cfg(not(aes_compact))]
 leaf!(c32_inv_mix_columns_2, inv_mix_columns_2, spec_inv_mix_columns_2, cadical);
 // @ob name=c32_inv_mix_columns_3 props=C02,C03,C20 fn=aes::soft::fixslice32::inv_mix_columns_3 timeout=600
+#[cfg(not(aes_compact))]
 leaf!(c32_inv_mix_columns_3, inv_mix_columns_3, spec_inv_mix_columns_3, cadical);
 // @ob name=c32_shift_rows_2 props=C02,C03,C20 fn=aes::soft::fixslice32::shift_rows_2,aes::soft::fixslice32::inv_shift_rows_2 timeout=300
 leaf!(c32_shift_rows_2, shift_rows_2, spec_shift_rows_2, cadical);
 // @ob name=c32_inv_shift_rows_1 props=C02,C03,C20 fn=aes::soft::fixslice32::inv_shift_rows_1,aes::soft::fixslice32::shift_rows_3 timeout=300
 leaf!(c32_inv_shift_rows_1, inv_shift_rows_1, spec_shift_rows_3, cadical);
 // @ob name=c32_inv_shift_rows_3 props=C02,C03,C20 fn=aes::soft::fixslice32::inv_shift_rows_3,aes::soft::fixslice32::shift_rows_1 timeout=300
+#[cfg(not(aes_compact))]
 leaf!(c32_inv_shift_rows_3, inv_shift_rows_3, spec_shift_rows_1, cadical);
